@@ -42,8 +42,8 @@ class ProductStream(InventoryOracle, Stream):
 class TreeStream(InventoryOracle, Stream):
     name = "trees"
     rule = ("compliant-by-construction trees (1-6 files, headers in 7 comment styles, .license siblings, binaries, REUSE.toml incl. "
-            "aggregate precedence, dep5, sub-directories of LICENSES/, .license companions, non-covered material, some in a Git "
-            "repository) with 0-5 injected defects of 14 kinds; licence categories of the real report vs model vs property definitions")
+            "aggregate precedence, REUSE.toml hierarchies, dep5 with wildcard paragraphs, sub-directories of LICENSES/, .license companions, non-covered material, some in a Git "
+            "repository) with 0-5 injected defects of 20 kinds; licence categories of the real report vs model vs property definitions")
 
     def cases(self, tier, rng):
         k = 0
